@@ -37,8 +37,9 @@ LEVELS = {
             "Coq theorems on a token-level Gallina model + independent serialiser round-trip"),
     "C19": ("PARTIAL. Proved: vertices are interned by rounded coordinates and ids never change, a ridge walked by the neighbouring region "
             "gets minus the same edge id, cells are stored under |key|; the area sign taken on the doubled vertex list of a closed region is "
-            "the region's own, and with the reversal rule every stored cycle has signed area -|area| (one rotational sense, over R). The "
-            "lattice-elements model is tied to the code by exact correspondence (Qhull output handed to both). One cell per kept region "
+            "the region's own, and with the reversal rule every stored cycle has signed area -|area| (one rotational sense, over R); the regions that become "
+            "cells are exactly the bounded non-empty ones whose corners are pairwise within the cut-off, independently of corner order. The "
+            "lattice-elements model and the cut-off model are tied to the code by exact correspondence (Qhull output handed to both). One cell per kept region "
             "with the region's corners as cycle and mesh consistency are evaluated against scipy's diagram by the oracle", "5/C19",
             "Coq theorems (interning, orientation) + exact correspondence + Voronoi oracle (partial)"),
     "C01": ("theorems: the two rows the assembly gives a junction compute the resultant of the tensions along the assembled versors, so balanced tensions are in the kernel of the assembled matrix (model of C02, over Q); over R: force balance makes (T/mean T, 0) an exact solution of the augmented system; an injective augmented matrix has a single non-negative minimiser; together with C02 (rows) and C05 (certified minimiser) this is the property; end to end on Voronoi / Moebius tissues (all back-ends, fits, resampling, axis-aligned first segments, extreme length units): tangents within the calibrated circle-fit accuracy, reported tensions fit the assembled equations as well as the true ones, recovery error within the derived bound (2|E T| + eps_res)/sigma_min; D1 attributed", "5/C01",
